@@ -47,7 +47,14 @@ var DhcpNets = []DhcpNet{
 	{Name: "h24n26", Home: netip.MustParsePrefix("172.20.4.0/24"), Netfilter: netip.MustParsePrefix("172.20.4.70/26"),
 		Router: netip.MustParseAddr("172.20.4.254"), DNS: netip.MustParseAddr("1.0.0.1"),
 		Ext: []netip.Addr{netip.MustParseAddr("172.20.5.1"), netip.MustParseAddr("10.0.0.7")}},
+	// 5: home LAN shorter than /24 (x.y.0.255 and x.y.1.0 are ordinary host addresses), netfilter /25 in the last quarter
+	{Name: "h23n25", Home: netip.MustParsePrefix("10.9.0.0/23"), Netfilter: netip.MustParsePrefix("10.9.1.129/25"),
+		Router: netip.MustParseAddr("10.9.0.1"), DNS: netip.MustParseAddr("8.8.4.4"),
+		Ext: []netip.Addr{netip.MustParseAddr("10.9.2.1"), netip.MustParseAddr("10.8.255.255")}},
 }
+
+// DhcpAltDNS is the DNS server of the changed configuration (action "reconf").
+var DhcpAltDNS = netip.MustParseAddr("149.112.112.112")
 
 func ip4u(a netip.Addr) uint32 {
 	b := a.As4()
